@@ -355,7 +355,8 @@ pub fn gen_case(t: &mut Tape, p: &Profile) -> RCase {
 
     let class = |t: &mut Tape| -> &'static str {
         if pct(t, p.p_amb) {
-            "amb"
+            // two overlapping regexes, or one regex registered twice at different locations
+            if t.chance(1, 2) { "amb" } else { "dup" }
         } else if pct(t, p.p_none) {
             "none"
         } else {
@@ -667,7 +668,7 @@ pub fn gen_case(t: &mut Tape, p: &Profile) -> RCase {
 
 fn step_info(bg: bool, s: &gherkin::Step) -> StepInfo {
     let class = match s.value.split(' ').next() {
-        Some("amb") => "amb",
+        Some("amb" | "dup") => "amb",
         Some("none") => "none",
         _ => "ok",
     };
